@@ -520,7 +520,7 @@ package trzsz
 //@ # C16: in Windows framing and in tmux junk mode, text in front of the line's marker is cut away
 //@ func trzszTransfer.recvLine
 //@   requires t.buffer != nil && tbWF(t.buffer)
-//@   assigns fields(t.buffer), recvd, bufLen, bufCap, bufArr, elemsof("byte"), wlog, wlen
+//@   assigns fields(t.buffer), recvd, bufLen, bufCap, bufArr, elemsof("byte")
 //@   ensures tbWF(t.buffer)
 //@   ensures [C16] r1 == nil && !t.tunnelConnected && \
 //@       (windowsEnvironment || t.windowsProtocol || t.transferConfig.TmuxOutputJunk || mayHasJunk) ==> cutOK(r0)
@@ -528,19 +528,19 @@ package trzsz
 
 //@ func trzszTransfer.recvCheck
 //@   requires t.buffer != nil && tbWF(t.buffer)
-//@   assigns fields(t.buffer), recvd, bufLen, bufCap, bufArr, elemsof("byte"), wlog, wlen
+//@   assigns fields(t.buffer), recvd, bufLen, bufCap, bufArr, elemsof("byte")
 //@   ensures tbWF(t.buffer)
 //@ end
 
 //@ func trzszTransfer.recvString
 //@   requires t.buffer != nil && tbWF(t.buffer)
-//@   assigns fields(t.buffer), recvd, bufLen, bufCap, bufArr, elemsof("byte"), wlog, wlen
+//@   assigns fields(t.buffer), recvd, bufLen, bufCap, bufArr, elemsof("byte")
 //@   ensures tbWF(t.buffer)
 //@ end
 
 //@ func trzszTransfer.recvInteger
 //@   requires t.buffer != nil && tbWF(t.buffer)
-//@   assigns fields(t.buffer), recvd, bufLen, bufCap, bufArr, elemsof("byte"), wlog, wlen
+//@   assigns fields(t.buffer), recvd, bufLen, bufCap, bufArr, elemsof("byte")
 //@   ensures tbWF(t.buffer)
 //@ end
 
@@ -569,15 +569,23 @@ package trzsz
 //@ end
 //@ func trzszTransfer.writeAll
 //@   assigns wlog, wlen
+//@   ensures forall w int {wlog[w]} :: w != t.writer ==> wlog[w] == old(wlog)[w]
+//@   ensures forall w int {wlen[w]} :: w != t.writer ==> wlen[w] == old(wlen)[w]
 //@ end
 //@ func trzszTransfer.sendLine
 //@   assigns wlog, wlen
+//@   ensures forall w int {wlog[w]} :: w != t.writer ==> wlog[w] == old(wlog)[w]
+//@   ensures forall w int {wlen[w]} :: w != t.writer ==> wlen[w] == old(wlen)[w]
 //@ end
 //@ func trzszTransfer.sendString
 //@   assigns wlog, wlen
+//@   ensures forall w int {wlog[w]} :: w != t.writer ==> wlog[w] == old(wlog)[w]
+//@   ensures forall w int {wlen[w]} :: w != t.writer ==> wlen[w] == old(wlen)[w]
 //@ end
 //@ func trzszTransfer.sendInteger
 //@   assigns wlog, wlen
+//@   ensures forall w int {wlog[w]} :: w != t.writer ==> wlog[w] == old(wlog)[w]
+//@   ensures forall w int {wlen[w]} :: w != t.writer ==> wlen[w] == old(wlen)[w]
 //@ end
 //@ func encodeBytes
 //@   assigns wlog, wlen
@@ -641,7 +649,7 @@ package trzsz
 //@ end
 //@ func trzszTransfer.recvHash
 //@   requires t.buffer != nil && tbWF(t.buffer)
-//@   assigns fields(t.buffer), recvd, bufLen, bufCap, bufArr, elemsof("byte"), wlog, wlen
+//@   assigns fields(t.buffer), recvd, bufLen, bufCap, bufArr, elemsof("byte")
 //@   ensures tbWF(t.buffer)
 //@   ensures r1 == nil ==> r0 != nil && r0 > old(alloc())
 //@ end
@@ -749,4 +757,92 @@ package trzsz
 
 //@ func sourceFile.marshalSourceFile
 //@   assigns f.Archive
+//@ end
+
+// ===========================================================================
+// C02  no silent corruption: success is returned only after the guards were passed
+// ===========================================================================
+
+//@ pure bytesEq(a []byte, b []byte) bool = len(a) == len(b) && (forall j int {a[j]} :: 0 <= j && j < len(a) ==> a[j] == b[j])
+
+//@ func trzszTransfer.recvBinary
+//@   requires t.buffer != nil && tbWF(t.buffer)
+//@   assigns fields(t.buffer), recvd, bufLen, bufCap, bufArr, elemsof("byte")
+//@   ensures tbWF(t.buffer)
+//@ end
+//@ func trzszTransfer.sendBinary
+//@   assigns wlog, wlen
+//@   ensures forall w int {wlog[w]} :: w != t.writer ==> wlog[w] == old(wlog)[w]
+//@   ensures forall w int {wlen[w]} :: w != t.writer ==> wlen[w] == old(wlen)[w]
+//@ end
+
+//@ # echo checks: nil is returned only if what the peer echoed equals what was expected
+//@ func trzszTransfer.checkInteger
+//@   requires t.buffer != nil && tbWF(t.buffer)
+//@   assigns fields(t.buffer), recvd, bufLen, bufCap, bufArr, elemsof("byte")
+//@   ensures tbWF(t.buffer)
+//@   ensures [C02] r0 == nil ==> result_of("trzszTransfer.recvInteger", 0, 0) == expect && result_of("trzszTransfer.recvInteger", 0, 1) == nil
+//@ end
+//@ func trzszTransfer.checkString
+//@   requires t.buffer != nil && tbWF(t.buffer)
+//@   assigns fields(t.buffer), recvd, bufLen, bufCap, bufArr, elemsof("byte")
+//@   ensures tbWF(t.buffer)
+//@   ensures [C02] r0 == nil ==> result_of("trzszTransfer.recvString", 0, 0) == expect && result_of("trzszTransfer.recvString", 0, 1) == nil
+//@ end
+//@ func trzszTransfer.checkBinary
+//@   requires t.buffer != nil && tbWF(t.buffer)
+//@   assigns fields(t.buffer), recvd, bufLen, bufCap, bufArr, elemsof("byte")
+//@   ensures tbWF(t.buffer)
+//@   ensures [C02] r0 == nil ==> bytesEq(result_of("trzszTransfer.recvBinary", 0, 0), expect) && result_of("trzszTransfer.recvBinary", 0, 1) == nil
+//@ end
+
+//@ # the receiver acknowledges a file (SUCC) only after its own digest equalled the sender's;
+//@ # on a mismatch nothing is written to the connection
+//@ func trzszTransfer.recvFileMD5
+//@   nilable progress
+//@   requires t.buffer != nil && tbWF(t.buffer)
+//@   assigns fields(t.buffer), recvd, bufLen, bufCap, bufArr, elemsof("byte"), wlog, wlen
+//@   ensures tbWF(t.buffer)
+//@   ensures [C02] r0 == nil ==> bytesEq(digest, result_of("trzszTransfer.recvBinary", 0, 0)) && result_of("trzszTransfer.recvBinary", 0, 1) == nil
+//@   ensures [C02] result_of("trzszTransfer.recvBinary", 0, 1) != nil || !bytesEq(digest, result_of("trzszTransfer.recvBinary", 0, 0)) ==> \
+//@       r0 != nil && wlen == old(wlen) && wlog == old(wlog)
+//@ end
+//@ func trzszTransfer.sendFileMD5
+//@   nilable progress
+//@   requires t.buffer != nil && tbWF(t.buffer)
+//@   assigns fields(t.buffer), recvd, bufLen, bufCap, bufArr, elemsof("byte"), wlog, wlen
+//@   ensures tbWF(t.buffer)
+//@   ensures [C02] r0 == nil ==> result_of("trzszTransfer.checkBinary", 0, 0) == nil && result_of("trzszTransfer.sendBinary", 0, 0) == nil
+//@ end
+
+//@ func trzszTransfer.setLastChunkTime
+//@   assigns t.lastChunkTimeArr, t.lastChunkTimeIdx
+//@ end
+
+//@ # binary blocks: success only if the announced size was read in full and unescaping left nothing over
+//@ func trzszTransfer.recvData
+//@   requires t.buffer != nil && tbWF(t.buffer)
+//@   requires t.transferConfig.EscapeTable != nil ==> tableWF(t.transferConfig.EscapeTable)
+//@   assigns fields(t.buffer), recvd, bufLen, bufCap, bufArr, elemsof("byte")
+//@   ensures tbWF(t.buffer)
+//@   ensures [C02] r1 == nil && t.transferConfig.Binary ==> len(result_of("unescapeData", 0, 1)) == 0 && result_of("unescapeData", 0, 2) == nil
+//@ end
+
+//@ # protocol 1/2 receive loop: every chunk is written to the file and absorbed by the hasher - the
+//@ # same bytes, in the same order - and the loop ends only when at least size bytes were written
+//@ func trzszTransfer.recvFileData
+//@   nilable progress
+//@   requires t.buffer != nil && tbWF(t.buffer)
+//@   requires t.transferConfig.EscapeTable != nil ==> tableWF(t.transferConfig.EscapeTable)
+//@   requires file != t.writer && !typeis(file, "*md5.digest") && !typeis(t.writer, "*md5.digest")
+//@   ensures [C02] r1 == nil ==> wlen[file] - old(wlen)[file] >= size && \
+//@       wlen[result_of("md5.New", 0, 0)] == wlen[file] - old(wlen)[file] && \
+//@       (forall k int {wlog[result_of("md5.New", 0, 0)][k]} :: 0 <= k && k < wlen[result_of("md5.New", 0, 0)] ==> \
+//@           wlog[result_of("md5.New", 0, 0)][k] == wlog[file][old(wlen)[file] + k])
+//@   loop 1
+//@     invariant t.buffer != nil && tbWF(t.buffer) && step >= 0
+//@     invariant t.transferConfig.EscapeTable != nil ==> tableWF(t.transferConfig.EscapeTable)
+//@     invariant file != t.writer && !typeis(t.writer, "*md5.digest") && typeis(hasher, "*md5.digest")
+//@     invariant [C02] step == wlen[file] - old(wlen)[file] && wlen[hasher] == step
+//@     invariant [C02] forall k int {wlog[hasher][k]} :: 0 <= k && k < wlen[hasher] ==> wlog[hasher][k] == wlog[file][old(wlen)[file] + k]
 //@ end
